@@ -255,6 +255,14 @@ def _one_case(ctx, tmp, label, obj, fmt, ac, mode):
                     ret = dump_one(o, path, fmt=fmt, allow_changes=ac)
                 elif mode == "many":
                     dump_many([o, o], path, fmt=fmt, allow_changes=ac)
+                elif mode == "input-kw":
+                    # per-call settings: template fields and keyword arguments named like the object's own fields,
+                    # dict-valued ones included, and a custom atom-line callback; they take precedence for this call
+                    # and must not be written into (or merged with) the caller's object
+                    write_input(o, path, fmt=fmt, template="{title} {lot} {charge} {spinmult} {extra[nproc]} {obasis_name}\n{geometry}\n",
+                                title="per-call", lot="PBE", charge=3, extra={"nproc": 8}, atcharges={"percall": [0.0]},
+                                moments={(1, "c"): [1.0, 2.0, 3.0]}, one_ints={"percall": [[1.0]]},
+                                atom_line=lambda data, iatom: f"X {iatom}")
                 else:
                     write_input(o, path, fmt=fmt)
         except (PrepareDumpError, DumpError, WriteInputError, FileFormatError) as exc:
@@ -339,6 +347,7 @@ def search(ctx):
                 cases.append((label, obj, fmt, False, "many"))
             for fmt in ("gaussian", "orca"):
                 cases.append((label, obj, fmt, False, "input"))
+                cases.append((label, obj, fmt, False, "input-kw"))
         hand = [c for c in cases if not c[0].startswith("corpus:")]
         rest = [c for c in cases if c[0].startswith("corpus:")]
         ctx.rng.shuffle(rest)
